@@ -175,6 +175,8 @@ def srcStep (_ : Unit) (ops : List String) (_impl : String) : Unit × String :=
     match ops with
     | ["mux", k, c, p] => srcMux k c p
     | ["demux", k, f] => srcDemux k f
+    | ["mtu", "mb", inner, cfg] => showM (mbapp.Swarm.MTU (intArg cfg) (intArg inner)) toString
+    | ["mtu", "frag", inner, cfg] => showM (fragswarm.swarm.MTU (intArg cfg) (intArg inner)) toString
     | ["kad", "dop", op, key, param, init, tab] =>
       showM (dopRun op (hexArg key) (natArg param) (parseIds init) (parseTable tab)) id
     | ["kad", "iter", key, n, init, tab] =>
